@@ -21,13 +21,13 @@ CLAIMED = {
  "C12": ("exploration", "invariant monitor on /metadata snapshots + panic capture",
    "Same histories; stored-state invariants, the broker's own consistency check, panics (catch_unwind) and refused-allocation atomicity after every operation; host spread of new chunks and replacements against the free pool of the preceding snapshot.",
    "section 2, C12"),
- "C02": ("exploration", "whole-system monitor with frozen migration phases + backend execution logs",
+ "C02": ("exploration", "whole-system monitor with frozen migration phases + backend execution logs; leg B over real sockets (broker HTTP server, coordinator HTTP clients, TCP proxies): transport differential + routing probes over TCP",
    "Broker, coordinator encoding, real proxies and FakeRedis in memory; migration phases frozen by gates on the handshake messages; probes from member proxies over range boundaries and random slots in every frozen state; executions compared with the broker-designated node, redirections counted, parked commands followed until release.",
    "section 2, C02"),
  "C05": ("exploration", "reference-model monitor + linearizability checker over recorded reply histories",
    "Sequential SETCLUSTER/SETREPL sequences against a reference model with unique message contents (routing probes and INFOREPL identify the installed message); concurrent deliveries on a multi-thread runtime checked for linearizability of replies, epoch monotonicity and routing-not-older-than-epoch.",
    "section 2, C05"),
- "C07": ("fault_enumeration", "offline checkers over recorded network / broker-call logs + bounded-progress monitor under a seeded fault plan",
+ "C07": ("fault_enumeration", "offline checkers over recorded network / broker-call logs + bounded-progress monitor under a seeded fault plan; leg B: bounded convergence through the production HTTP / TCP clients and servers",
    "Whole system in memory (real broker service, real coordinator components, real proxies). A seeded plan drops requests and replies, duplicates, replays stale messages late, loses broker requests / replies, crashes a coordinator at the n-th outgoing call, runs one or two coordinators concurrently and restarts proxies empty. Checked: per-proxy epoch trace never decreases without a restart; each migration commit accepted at most once; destination before source after every undisturbed commit; after the faults stop, convergence of epochs / roles / migrations within a bounded number of rounds and routing probes.",
    "section 2, C07"),
  "C08": ("fault_enumeration", "exactly-once / reply-origin checker over recorded request-reply histories with injected connection faults",
@@ -36,7 +36,7 @@ CLAIMED = {
  "C09": ("exploration", "differential monitor: independent CRC16/hash-tag model + backend execution logs; thorough tier adds a Miri leg on the slot/hash-tag/RangeMap code",
    "Generated slot layouts installed through UMCTL SETCLUSTER on a real proxy; random/binary/brace/slot-targeted keys; every probe is judged by an independent slot model and by which FakeRedis node executed what.",
    "section 2, C09"),
- "C03": ("exploration", "recorded client histories + per-key linearizability checker + final-placement monitor",
+ "C03": ("exploration", "recorded client histories + per-key linearizability checker + final-placement monitor (leg A: virtual time with seeded latencies; leg B: real sockets on a multi-thread runtime)",
    "Whole system in memory under virtual time; live resizes with concurrent uniquely-valued client traffic and seeded network latencies; every key's history is checked with an exact Wing-Gong search against a register/counter/list model (unknown outcomes stay open), then placement and values on the Redis stand-ins are compared with the set of possible final states.",
    "section 2, C03"),
  "C19": ("exploration", "scripted-reply monitor at the destination's RESTORE commands + expiry check in the C03 histories",
